@@ -490,7 +490,7 @@ EXPECTED_PROBES = {
     "C08": ["c08-input:raw-bytes", "c08-input:sync", "c08-input:eager", "c08-input:join", "c08-input:ff", "c08-input:syncresp", "c08-input:ffresp", "c08-valid-join-request-copies"],
     "C09": ["c09-anchor-checked", "c09-hostile-signatures:malformed", "c09-hostile-signatures:other-body", "validator-set-change"],
     "C10": ["c10-history-checked", "c10-quorum-round-checked", "c10-quorum-decided-round-checked", "c10-fame-decision-checked", "c10-fame-decision-across-set-change-checked", "validator-set-change"],
-    "C11": ["shadow-bootstrap", "restart-bootstrap", "crash-inside-insertion", "crash-between-ancestor-updates", "store-point"],
+    "C11": ["shadow-bootstrap", "restart-bootstrap", "crash-inside-insertion", "crash-between-ancestor-updates", "shadow-continuation", "store-point"],
     "C12": ["ff-refused", "ff-accepted", "ff-attempt-on-previously-adopted-pair", "ff-attempt:sigs-below-threshold-plus-strangers"],
     "C13": ["fastforward-ok", "re-fast-forward", "c13-ff-history-checked"],
     "C14": ["ff-attempt:forged-validator-set", "ff-forged-set-offered-again"],
